@@ -93,6 +93,11 @@ impl MutableItem {
         key.verify(&encode_signable(seq, &v, salt.as_deref()), &signature)
             .map_err(|_| MutableError::InvalidMutableSignature)?;
 
+        // BEP_0044: the target MUST be the sha1 hash of the public key and the salt.
+        if target != MutableItem::target_from_key(key.as_bytes(), salt.as_deref()) {
+            return Err(MutableError::InvalidMutableTarget);
+        }
+
         Ok(Self {
             target,
             key: key.to_bytes(),
@@ -161,6 +166,10 @@ pub enum MutableError {
     #[error("Invalid mutable item public key")]
     /// Invalid mutable item public key
     InvalidMutablePublicKey,
+
+    #[error("Mutable item target does not match its public key and salt")]
+    /// The target is not the sha1 hash of the public key and salt.
+    InvalidMutableTarget,
 }
 
 impl PutMutableRequestArguments {
